@@ -1774,6 +1774,10 @@ impl<'a> Query<'a> {
         }
         s += self.querytype().as_str();
         s += " ";
+        if self.qualifier != QueryQualifier::Normal {
+            s += self.qualifier.as_str();
+            s += " ";
+        }
         if let Some(resulttype) = self.resulttype_as_str() {
             s += resulttype;
         }
@@ -1796,7 +1800,10 @@ impl<'a> Query<'a> {
 
         if self.has_subqueries() {
             s += "\n{\n";
-            for subquery in self.subqueries() {
+            for (i, subquery) in self.subqueries().enumerate() {
+                if i > 0 {
+                    s += " |";
+                }
                 s.push(' ');
                 s += &subquery.to_string()?;
             }
@@ -4298,9 +4305,9 @@ fn parse_qualifiers<'a>(
                 ))
             }
         };
-        let (newarg, remainder, _) = get_arg(querystring)?;
+        let (newarg, remainder, _) = get_arg(remainder)?;
         if newarg == "RECURSIVE" {
-            let (newarg, remainder, _) = get_arg(querystring)?;
+            let (newarg, remainder, _) = get_arg(remainder)?;
             Ok((newarg, remainder, qualifier, AnnotationDepth::Max))
         } else {
             Ok((newarg, remainder, qualifier, AnnotationDepth::One))
@@ -4341,7 +4348,7 @@ fn parse_text_qualifiers<'a>(
                 ))
             }
         };
-        let (newarg, remainder, _) = get_arg(querystring)?;
+        let (newarg, remainder, _) = get_arg(remainder)?;
         Ok((newarg, remainder, qualifier, regex))
     } else {
         Ok((arg, querystring, TextMode::Exact, false))
